@@ -184,7 +184,13 @@ func vSame(a, b any) bool {
 	return vSameRV(reflect.ValueOf(a), reflect.ValueOf(b))
 }
 
-func vSameRV(a, b reflect.Value) bool {
+// vSameDeep: like vSame, but maps and slices are compared by content (same nil-ness, same length,
+// same keys, elements vSameDeep) instead of identity; pointers, channels and funcs stay identities.
+func vSameDeep(a, b any) bool { return vSameRVd(reflect.ValueOf(a), reflect.ValueOf(b), true) }
+
+func vSameRV(a, b reflect.Value) bool { return vSameRVd(a, b, false) }
+
+func vSameRVd(a, b reflect.Value, deep bool) bool {
 	if !a.IsValid() || !b.IsValid() {
 		return a.IsValid() == b.IsValid()
 	}
@@ -205,7 +211,24 @@ func vSameRV(a, b reflect.Value) bool {
 		return a.Complex() == b.Complex()
 	case reflect.String:
 		return a.String() == b.String()
-	case reflect.Pointer, reflect.UnsafePointer, reflect.Chan, reflect.Map:
+	case reflect.Map:
+		if !deep {
+			return a.Pointer() == b.Pointer()
+		}
+		if a.IsNil() || b.IsNil() {
+			return a.IsNil() == b.IsNil()
+		}
+		if a.Len() != b.Len() {
+			return false
+		}
+		for _, k := range a.MapKeys() {
+			bv := b.MapIndex(k)
+			if !bv.IsValid() || !vSameRVd(a.MapIndex(k), bv, true) {
+				return false
+			}
+		}
+		return true
+	case reflect.Pointer, reflect.UnsafePointer, reflect.Chan:
 		return a.Pointer() == b.Pointer()
 	case reflect.Func:
 		if a.IsNil() || b.IsNil() {
@@ -219,22 +242,30 @@ func vSameRV(a, b reflect.Value) bool {
 		if a.Len() != b.Len() {
 			return false
 		}
+		if deep {
+			for i := 0; i < a.Len(); i++ {
+				if !vSameRVd(a.Index(i), b.Index(i), true) {
+					return false
+				}
+			}
+			return true
+		}
 		return a.Len() == 0 || a.Pointer() == b.Pointer()
 	case reflect.Interface:
 		if a.IsNil() || b.IsNil() {
 			return a.IsNil() == b.IsNil()
 		}
-		return vSameRV(a.Elem(), b.Elem())
+		return vSameRVd(a.Elem(), b.Elem(), deep)
 	case reflect.Struct:
 		for i := 0; i < a.NumField(); i++ {
-			if !vSameRV(a.Field(i), b.Field(i)) {
+			if !vSameRVd(a.Field(i), b.Field(i), deep) {
 				return false
 			}
 		}
 		return true
 	case reflect.Array:
 		for i := 0; i < a.Len(); i++ {
-			if !vSameRV(a.Index(i), b.Index(i)) {
+			if !vSameRVd(a.Index(i), b.Index(i), deep) {
 				return false
 			}
 		}
